@@ -526,7 +526,7 @@ def gen_frames_case(rng: random.Random):
     mq = MiniQpack()
     ctl, enc, dec = al.uni(), al.uni(), al.uni()
     tags = set()
-    fault = rng.choice([None] * 7 + ["data-first", "headers-after-trailers", "reserved-frame", "content-length", "bad-qpack",
+    fault = rng.choice([None] * 30 + ["data-first", "headers-after-trailers", "reserved-frame", "content-length", "bad-qpack",
                                       "short-headers", "second-control", "control-fin", "settings-twice", "no-settings",
                                       "uppercase-name", "enc-garbage", "empty-datagram", "pp-from-client"])
     pairs = [(1, 4096), (7, 16)]
